@@ -1249,6 +1249,110 @@ theorem result_is_last_reply (cfg : Cfg) (resolve : St → St × Bool) (url : St
       · exact ih (cfg.backoffOK + 1 - (n + 1)) (by omega) (n + 1) s rfl
       · exact h
 
+theorem getStep_last (cfg : Cfg) (url : String) (ok : List Nat) (n : Nat) (st : St) :
+    match (getStep cfg url ok n st).2 with
+    | .done r => LastIs (getStep cfg url ok n st).1.log r
+    | .again last => LastIs (getStep cfg url ok n st).1.log (.error last) := by
+  unfold getStep
+  have h2 := serve_last st ⟨.get, url, none, false⟩
+  have h2e := serve_err st ⟨.get, url, none, false⟩
+  generalize serve st ⟨.get, url, none, false⟩ = x at h2 h2e
+  obtain ⟨s2, r2⟩ := x
+  cases r2 with
+  | error e => exact LastIs_serve_err _ _ (h2e e rfl)
+  | ok p =>
+    have hl := h2 p rfl
+    simp only at hl ⊢
+    by_cases hok : ok.contains p.status = true
+    · simp only [hok, if_true]; exact hl
+    · have hok' : ok.contains p.status = false := by simpa using hok
+      simp only [hok', Bool.false_eq_true, if_false]
+      have hlog := afterReply_log cfg false n s2 p
+      have hag := afterReply_again cfg false n s2 p
+      have hshape := afterReply_done cfg false n s2 p
+      generalize afterReply cfg false n s2 p = y at hlog hag hshape
+      obtain ⟨s3, r3⟩ := y
+      simp only at hlog hag hshape ⊢
+      cases r3 with
+      | done r => rw [hshape r rfl, hlog]; exact ⟨p, hl, rfl, Or.inl rfl⟩
+      | again last => rw [(hag last rfl).2.2, hlog]; exact ⟨p, hl, rfl, Or.inl rfl⟩
+
+/-- the same for unsigned GETs (`Discover`) -/
+theorem get_result_is_last_reply (cfg : Cfg) (url : String) (ok : List Nat) (n : Nat) (st : St) :
+    LastIs (getLoop cfg url ok n st).1.log (getLoop cfg url ok n st).2 := by
+  induction hm : cfg.backoffOK + 1 - n using Nat.strongRecOn generalizing n st with
+  | _ m ih =>
+    rw [getLoop]
+    have h := getStep_last cfg url ok n st
+    generalize getStep cfg url ok n st = x at h
+    obtain ⟨s, r⟩ := x
+    cases r with
+    | done r => exact h
+    | again last =>
+      simp only at h ⊢
+      split
+      · exact ih (cfg.backoffOK + 1 - (n + 1)) (by omega) (n + 1) s rfl
+      · exact h
+
+/-- **documented retry rule.** A 4xx answer that is neither 429 nor a badNonce problem is never retried:
+    the loop ends with that error and `RetryBackoff` is not even consulted. -/
+theorem fatal_not_retried (cfg : Cfg) (c : Bool) (n : Nat) (st : St) (p : Resp)
+    (hr : isRetriable p.status = false) (hb : (c && isBadNonce p.prob) = false) :
+    afterReply cfg c n st p = (st, .done (.error (.status p.status p.prob))) := by
+  simp [afterReply, hr, hb]
+
+theorem isRetriable_spec (code : Nat) : isRetriable code = true ↔ code ≤ 399 ∨ 500 ≤ code ∨ code = 429 := by
+  simp [isRetriable, or_assoc]
+
+/-! ## the default backoff -/
+
+/-- `defaultBackoff` never asks to stop by itself when there is no Retry-After header ("the returned
+    value is always greater than 0"), stays within the 10 s ceiling, and honours a non-negative
+    Retry-After by waiting at least that long. -/
+theorem defaultBackoff_range (n : Int) (ra : RetryAfter) (j : Int) (hj : 1000000 ≤ j ∧ j ≤ 1000000000) :
+    (ra = .absent → 0 < defaultBackoff n ra j ∧ defaultBackoff n ra j ≤ maxBackoff) ∧
+    (∀ i, ra = .secs i → 0 ≤ i → i * second < defaultBackoff n ra j) ∧
+    (ra = .invalid → 0 < defaultBackoff n ra j) := by
+  refine ⟨?_, ?_, ?_⟩
+  · intro h; subst h
+    simp only [defaultBackoff, maxBackoff, second]
+    have : (0 : Int) ≤ 2 ^ ((if n < 1 then 1 else if n > 30 then 30 else n) - 1).toNat * 1000000000 :=
+      Int.mul_nonneg (Int.pow_nonneg (by decide)) (by decide)
+    omega
+  · intro i h hi; subst h
+    simp only [defaultBackoff, second]; omega
+  · intro h; subst h
+    simp only [defaultBackoff]; omega
+
+/-- the observable of the `dbo` ops: whatever the jitter, `d − 1ns` has the same whole seconds -/
+theorem dbo_floor_indep (n : Int) (ra : RetryAfter) (j : Int) (hj : 1000000 ≤ j ∧ j ≤ 1000000000) :
+    (defaultBackoff n ra j - 1) / second = backoffSeconds n ra := by
+  cases ra with
+  | secs i =>
+    simp only [defaultBackoff, backoffSeconds, second]; omega
+  | invalid =>
+    simp only [defaultBackoff, backoffSeconds, second]; omega
+  | absent =>
+    simp only [defaultBackoff, backoffSeconds, second, maxBackoff]
+    generalize hk : (if n < 1 then 1 else if n > 30 then 30 else n) = k
+    have hk1 : 1 ≤ k ∧ k ≤ 30 := by
+      subst hk
+      split
+      · omega
+      · split <;> omega
+    by_cases h5 : k ≥ 5
+    · have h16n : (2 : Nat) ^ 4 ≤ 2 ^ (k - 1).toNat := Nat.pow_le_pow_right (by decide) (by omega)
+      have h16 : (2 : Int) ^ 4 ≤ 2 ^ (k - 1).toNat := by exact_mod_cast h16n
+      rw [if_pos h5]
+      omega
+    · rw [if_neg h5]
+      have hcases : k = 1 ∨ k = 2 ∨ k = 3 ∨ k = 4 := by omega
+      rcases hcases with rfl | rfl | rfl | rfl <;> simp <;> omega
+
+example : defaultBackoff 3 .absent 500000000 = 4500000000 := by decide
+example : defaultBackoff 7 .absent 1000000 = 10000000000 := by decide
+example : backoffSeconds 3 .absent = 4 := by decide
+
 /-- non-vacuity of the `no_reuse` hypothesis and of `WF` -/
 example : (scriptNonces [.resp ⟨200, "", some "a"⟩, .fail, .resp ⟨400, "urn:x:badNonce", some "b"⟩]).Nodup := by decide
 example : WF [.req ⟨.post, "order", some "a", true⟩, .rep ⟨200, "", some "a"⟩, .req ⟨.get, "dir", none, false⟩] := by
